@@ -158,7 +158,7 @@ def h14c_duration(seconds, largest, smallest, style, auto):
     """a displayed whole-second duration, read back unit by unit, equals the duration truncated to the smallest unit"""
     assume(largest <= smallest)                       # WEEK=1 ... SECOND=16: larger units have smaller codes
     assume(0 <= seconds)
-    cell = object.__new__(DurationCell)
+    cell = DurationCell.__new__(DurationCell)
     cell.row = 0
     cell.col = 0
     cell._table_id = 7
@@ -223,7 +223,7 @@ def h14c_ms(ms, largest, smallest, style, auto, window=None):
     assume(0 <= ms)
     if window is not None:
         assume(window[0] <= ms <= window[1])
-    cell = object.__new__(DurationCell)
+    cell = DurationCell.__new__(DurationCell)
     cell.row = 0
     cell.col = 0
     cell._table_id = 7
